@@ -71,3 +71,18 @@ def run_fresh_many(tasks: list[tuple], jobs: int, timeout: float = 60.0) -> list
 
 def failed(r: Any) -> bool:
     return isinstance(r, dict) and any(k in r for k in ("__timeout__", "__died__", "__exc__", "__garbled__"))
+
+
+def tree_stamp() -> str:
+    """fingerprint of the implementation's source files (path, mtime, size): a run whose references and sessions saw different
+    trees proves nothing either way"""
+    import hashlib
+    h = hashlib.sha256()
+    base = os.path.join(core.REPO, "explorerscript")
+    for dp, dn, fns in sorted(os.walk(base)):
+        dn.sort()
+        for fn in sorted(fns):
+            if fn.endswith(".py"):
+                st = os.stat(os.path.join(dp, fn))
+                h.update(f"{os.path.relpath(os.path.join(dp, fn), base)}:{st.st_mtime_ns}:{st.st_size};".encode())
+    return h.hexdigest()[:16]
